@@ -83,8 +83,8 @@ impl BinOp {
             Self::Plus => left.wrapping_add(right),
             Self::Minus => left.wrapping_sub(right),
             Self::Times => left.wrapping_mul(right),
-            Self::Divide => left / right,
-            Self::Reminder => left % right,
+            Self::Divide => left.wrapping_div(right),
+            Self::Reminder => left.wrapping_rem(right),
         }
     }
 }
@@ -208,7 +208,13 @@ impl Expr {
                 }
             }
             Self::UnaryOp { op, expr } => Ok(op.eval(expr.eval(ctx)?)),
-            Self::BinOp { op, left, right } => Ok(op.eval(left.eval(ctx)?, right.eval(ctx)?)),
+            Self::BinOp { op, left, right } => {
+                let (left, right) = (left.eval(ctx)?, right.eval(ctx)?);
+                if right == 0 && matches!(op, BinOp::Divide | BinOp::Reminder) {
+                    return Err(ExprErrorKind::DivisionByZero.into());
+                }
+                Ok(op.eval(left, right))
+            }
             Self::Func { name, args } => {
                 let entry = FUNC_TABLE
                     .get(name)
